@@ -174,3 +174,53 @@ def native_locate_block(arg, values):
             if sf > bot and bot < p[2] < btop: holds.append(geo.block_name(geo.layerlist[li].name, geo.columnlist[ci].name))
     ok = (r is None and not holds) or (r is not None and all(h == r for h in holds) and r in geo.block_name_list[geo.num_atmosphere_blocks:])
     return bool(ok), 'point %r reported in block %r, strictly inside %r' % (list(p), r, holds)
+
+
+def native_rectgeo(arg, values):
+    """C18: fromgeo -> rectgeo -> fromgeo(map) on a real rectangular geometry at the origin, with the solver's values."""
+    import numpy as np
+    from mulgrids import mulgrid
+    from t2grids import t2grid
+    nx, ny, nz, atm, convention, nsurf = arg[:6]
+    dx = [_val(values, 'dx%d' % k, 10. + 3 * k) for k in range(nx)]; dy = [_val(values, 'dy%d' % k, 8. + 2 * k) for k in range(ny)]; dz = [_val(values, 'dz%d' % k, 5. + k) for k in range(nz)]
+    geo = mulgrid().rectangular(dx, dy, dz, atmos_type=atm, convention=0, origin=[0., 0., 0.])
+    geo.atmosphere_volume = max(_val(values, 'atmvol', 1.e25), 1.e25); geo.atmosphere_connection = _val(values, 'atmcon', 1.e-6)
+    bottom = -sum(dz)
+    surf = [0.] * (nx * ny)
+    for k in range(min(nsurf, nx * ny)):
+        s = _val(values, 'surf%d' % k, -0.4 * dz[0])
+        geo.columnlist[k].surface = s; geo.set_column_num_layers(geo.columnlist[k]); surf[k] = s
+    geo.setup_block_name_index(); geo.setup_block_connection_name_index()
+    grid = t2grid().fromgeo(geo)
+    try:
+        geo2, bm = grid.rectgeo(atmos_type=atm, convention=convention)
+    except Exception as ex:
+        return False, 'rectgeo raises %s: %s' % (type(ex).__name__, ex)
+    bad = []
+    close = lambda a, b: abs(a - b) <= 1e-9 * max(1., abs(a), abs(b))
+    th = [l.top - l.bottom for l in geo2.layerlist[1:]]
+    if len(th) != nz or not all(close(a, b) for a, b in zip(th, dz)): bad.append('layer thicknesses %r, original %r' % (th, dz))
+    if geo2.num_columns != nx * ny: bad.append('%d columns, original %d' % (geo2.num_columns, nx * ny))
+    else:
+        for ci, c in enumerate(geo2.columnlist):
+            i, j = ci % nx, ci // nx
+            bb = c.bounding_box
+            want = (sum(dx[:i]), sum(dy[:j]), sum(dx[:i + 1]), sum(dy[:j + 1]))
+            if not all(close(a, b) for a, b in zip((bb[0][0], bb[0][1], bb[1][0], bb[1][1]), want)): bad.append('column %d box %r, original %r' % (ci, bb, want))
+            if not close(c.surface, surf[ci]): bad.append('column %d surface %r, original %r' % (ci, c.surface, surf[ci]))
+    if geo2.atmosphere_type != atm or geo2.convention != convention: bad.append('atmosphere type / convention not as requested')
+    try:
+        g2 = t2grid().fromgeo(geo2, bm)
+        n1, n2 = [b.name for b in grid.blocklist], [b.name for b in g2.blocklist]
+        if sorted(n1) != sorted(n2): bad.append('block names %r regenerated as %r' % (n1, n2))
+        else:
+            for nm in n1[geo.num_atmosphere_blocks:]:
+                if not close(grid.block[nm].volume, g2.block[nm].volume): bad.append('block %r volume %r regenerated as %r' % (nm, grid.block[nm].volume, g2.block[nm].volume))
+            k1 = dict((frozenset(b.name for b in c.block), c) for c in grid.connectionlist); k2 = dict((frozenset(b.name for b in c.block), c) for c in g2.connectionlist)
+            if set(k1) != set(k2): bad.append('connections differ')
+            else:
+                for k in k1:
+                    if not close(k1[k].area, k2[k].area): bad.append('connection %r area %r regenerated as %r' % (sorted(k), k1[k].area, k2[k].area))
+    except Exception as ex:
+        bad.append('fromgeo of the reconstructed geometry raises %s: %s' % (type(ex).__name__, ex))
+    return (not bad), '; '.join(bad[:4]) or 'geometry recovered'
